@@ -361,6 +361,8 @@ class AddComputed:
     def gen(rng, shape):
         r = _pick_res(rng, shape)
         new = 'cf%d' % rng.randint(0, 999)
+        if any(new in _fnames(x) for x in shape):
+            return None
         ints = [f[0] for f in r['fields'] if f[1] == 'integer' and f[0] in ('id', 'n', 'm')]
         kind = rng.choice(['sum', 'format', 'constant', 'max', 'multiply', 'join', 'avg', 'min'])
         spec = {'op': 'add_computed_field', 'res': r['name'], 'sel': _sel_for(rng, shape, r), 'target': new,
